@@ -214,6 +214,9 @@ func (r *Run) Finish() int {
 	for k, v := range r.extra {
 		cov[k] = v
 	}
+	if r.Assume == nil {
+		r.Assume = []string{}
+	}
 	ev := map[string]any{
 		"property_id": r.Property,
 		"tier":        r.Tier,
